@@ -279,6 +279,6 @@ MANIFEST = {
             "length gate, successful decode, subgroup check and (keys) non-identity check on the same value, and that the length "
             "predicates accept exactly 48/96-byte bytes objects. This is the shape-of-code part of C04; it is decided on every "
             "path of the current source.",
-    "note": "Trusted: the checker's model of the Python fragment; decoders/curve functions pure (C20); subgroup_check/is_inf mean "
+    "note": "R5 re-states the decoder tables of C11; R7 re-states C17.R1 and the ladder schema of the optimized BLS multiply (C07.R3): the subgroup gate refuses every point outside the subgroup only if multiply is scalar multiplication on every curve point. Trusted: the checker's model of the Python fragment; decoders/curve functions pure (C20); subgroup_check/is_inf mean "
             "what C17/C13 establish; implicit exceptions of builtins only for the modelled list.",
 }
